@@ -19,21 +19,27 @@ type restartCase struct {
 	Existing [][]dEv `json:"existing,omitempty"` // batches written (and flushed, server stopped) BEFORE: the partition exists
 	Last     [][]dEv `json:"last"`               // batches written by the last server, acknowledged, then immediate graceful stop
 	Via      string  `json:"via"`                // direct | rpc
+	// Others: that many OTHER partitions (pk=1…) also get one acknowledged, still buffered write from the last server — half of
+	// them before partition 0's writes, half after (the shutdown flush must reach every journal, whatever order it visits them in)
+	Others int `json:"others,omitempty"`
 }
 
-func writeBatch(srv *lrsrv.Srv, via string, b []dEv) error {
+func writeBatch(srv *lrsrv.Srv, via string, b []dEv) error { return writeBatchTo(srv, via, 0, b) }
+
+func writeBatchTo(srv *lrsrv.Srv, via string, part int, b []dEv) error {
+	tags := fmt.Sprintf("pk=%d", part)
 	if via == "rpc" {
 		evs := make([]*api.LogEvent, len(b))
 		for i, e := range b {
 			evs[i] = &api.LogEvent{Timestamp: e.Ts, Message: string(e.Msg)}
 		}
 		var wr api.WriteResult
-		if err := srv.Client.Write(context.Background(), "pk=0", "", evs, &wr); err != nil {
+		if err := srv.Client.Write(context.Background(), tags, "", evs, &wr); err != nil {
 			return err
 		}
 		return wr.Err
 	}
-	return srv.Parts.Write(context.Background(), "pk=0", &litIt{evs: modelEvs(b)}, false)
+	return srv.Parts.Write(context.Background(), tags, &litIt{evs: modelEvs(b)}, false)
 }
 
 func runRestartCase(c restartCase, col *collector, sec *vh.Section) {
@@ -73,6 +79,19 @@ func runRestartCase(c restartCase, col *collector, sec *vh.Section) {
 		fail("restart-refused", "the server must start again after a clean stop", err.Error(), "starts")
 		return
 	}
+	otherBatch := func(p int) []dEv { return []dEv{{Ts: int64(1000 + p), Msg: HS(fmt.Sprintf("other partition %d", p))}, {Ts: int64(2000 + p), Msg: "x"}} }
+	otherOK := map[int]bool{}
+	writeOthers := func(from, to int) {
+		for p := from; p <= to; p++ {
+			if err := writeBatchTo(srv, c.Via, p, otherBatch(p)); err != nil {
+				fail("valid-write-rejected", "a well-formed write was rejected: "+err.Error(), "rejected", "acknowledged")
+				continue
+			}
+			otherOK[p] = true
+			col.add(chk{line: fmt.Sprintf("w.write %d ", p) + dEvLine(otherBatch(p)), impl: "", fn: "write", input: c, skip: func(string) bool { return true }})
+		}
+	}
+	writeOthers(1, c.Others/2)
 	for _, b := range c.Last {
 		if err := writeBatch(srv, c.Via, b); err != nil {
 			fail("valid-write-rejected", "a well-formed write was rejected: "+err.Error(), "rejected", "acknowledged")
@@ -83,8 +102,14 @@ func runRestartCase(c restartCase, col *collector, sec *vh.Section) {
 			want = append(want, binEv{e.Ts, string(e.Msg), ""})
 		}
 	}
+	writeOthers(c.Others/2+1, c.Others)
 	srv.Stop() // graceful, immediately after the acknowledgement
 	col.add(chk{line: fmt.Sprintf("w.restart 0 %d", durable), impl: "ok", fn: "restart", input: c})
+	for p := 1; p <= c.Others; p++ {
+		if otherOK[p] {
+			col.add(chk{line: fmt.Sprintf("w.restart %d 0", p), impl: "ok", fn: "restart", input: c})
+		}
+	}
 	srv, err = lrsrv.Start(dir, lrsrv.Opts{})
 	if err != nil {
 		fail("restart-refused", "the server must start again after a clean stop", err.Error(), "starts")
@@ -108,13 +133,37 @@ func runRestartCase(c restartCase, col *collector, sec *vh.Section) {
 			fail("acked-event-lost-on-graceful-stop", "events of an acknowledged write are not read back after a graceful stop and restart (via "+via+")", impl, ws)
 		}
 	}
+	for p := 1; p <= c.Others; p++ {
+		if !otherOK[p] {
+			continue
+		}
+		var wantO []binEv
+		for _, e := range otherBatch(p) {
+			wantO = append(wantO, binEv{e.Ts, string(e.Msg), ""})
+		}
+		evs, rerr := readPart(srv, "querier", fmt.Sprintf("select from pk=%d", p), 1000, 20)
+		impl := ""
+		if rerr != nil {
+			impl = "error " + rerr.Error()
+		} else {
+			got := make([]binEv, len(evs))
+			for i, e := range evs {
+				got[i] = binEv{e.Timestamp, e.Message, e.Fields}
+			}
+			impl = "ok " + showEvs(got)
+		}
+		col.add(chk{line: fmt.Sprintf("w.read %d %d", p, defaultMaxRec), impl: impl, norm: modelReadToText, fn: "unfiltered read of another partition after a graceful restart", input: c})
+		if ws := "ok " + showEvs(wantO); impl != ws {
+			fail("acked-event-lost-on-graceful-stop", fmt.Sprintf("events of an acknowledged write to partition pk=%d (one of %d partitions with buffered records at the stop) are not read back after a graceful stop and restart", p, c.Others+1), impl, ws)
+		}
+	}
 	res.Eval(sec, fmt.Sprint(c))
-	res.Dist(sec, fmt.Sprintf("partition existed=%v via=%s", len(c.Existing) > 0, c.Via))
+	res.Dist(sec, fmt.Sprintf("partition existed=%v via=%s others=%d", len(c.Existing) > 0, c.Via, c.Others))
 }
 
 func sectionRestart(rng *vh.Rng) {
 	sec := res.Section("restart", "system-correspondence",
-		"graceful stop immediately after an acknowledgement, restart on the same directory, unfiltered read through backend.Querier and RPC: (a) the write is the FIRST write of a brand-new partition, (b) the partition existed (earlier batches written, flushed, server stopped and restarted); the last server before the stop runs with WriteFlushMs = 60 s so nothing it wrote is confirmed by the timer; 1..3 batches of 1..40 small events, direct and RPC writes. IMPL vs MODEL (gracefulRestart with the number of records confirmed before) and SPEC: every acknowledged event is read back, once, in order. non-trivial = every case")
+		"graceful stop immediately after an acknowledgement, restart on the same directory, unfiltered read through backend.Querier and RPC: (a) the write is the FIRST write of a brand-new partition, (b) the partition existed (earlier batches written, flushed, server stopped and restarted); the last server before the stop runs with WriteFlushMs = 60 s so nothing it wrote is confirmed by the timer; 1..3 batches of 1..40 small events, direct and RPC writes; in half of the cases 1..4 OTHER partitions also hold an acknowledged, still buffered write at the stop (written before and after partition 0's) and are read back too. IMPL vs MODEL (gracefulRestart with the number of records confirmed before) and SPEC: every acknowledged event is read back, once, in order. non-trivial = every case")
 	n := 8
 	if args.Thorough {
 		n = 40
@@ -126,7 +175,7 @@ func sectionRestart(rng *vh.Rng) {
 		ts += 100
 		return b
 	}
-	cases = append(cases, restartCase{Last: [][]dEv{{{Ts: 7, Msg: "only"}}}, Via: "rpc"}, restartCase{Existing: [][]dEv{{{Ts: 1, Msg: "old"}}}, Last: [][]dEv{{{Ts: 2, Msg: "new"}}}, Via: "direct"})
+	cases = append(cases, restartCase{Last: [][]dEv{{{Ts: 7, Msg: "only"}}}, Via: "rpc"}, restartCase{Last: [][]dEv{{{Ts: 7, Msg: "one of four"}}}, Via: "direct", Others: 3}, restartCase{Existing: [][]dEv{{{Ts: 1, Msg: "old"}}}, Last: [][]dEv{{{Ts: 2, Msg: "new"}}}, Via: "direct"})
 	for i := 0; i < n; i++ {
 		c := restartCase{Via: rng.PickS([]string{"direct", "rpc"})}
 		if i%2 == 1 {
@@ -136,6 +185,9 @@ func sectionRestart(rng *vh.Rng) {
 		}
 		for k := rng.Range(1, 3); k > 0; k-- {
 			c.Last = append(c.Last, batch())
+		}
+		if i%2 == 0 {
+			c.Others = rng.Range(1, 4)
 		}
 		cases = append(cases, c)
 	}
